@@ -14,7 +14,10 @@ ASSUMPTIONS = ['model = Lang/Comment.v: Generator.comment_filter and the @deprec
 
 PIECES = ['*/', '/*', '//', '"', '\\', '@', '{', '}', '<', '>', '&', '`', '`code`', '*emph*', '_foo_/', '**/', '*//', '\\"', '\\\\', '%', '$', '#', "'",
           'text', 'a b', 'é', '\t', '&#47;', '*&', '/', '*', '?>', '<!--', '-->', ']]', '")]]', '"); int x;', '*/ int evil; /*', '\\n',
-          '&quot;', '&#34;', '&#x22;', '&#10;', '&amp;', '&lt;', '&#92;', 'a fairly long run of ordinary words to reach the line limit ']
+          '&quot;', '&#34;', '&#x22;', '&#10;', '&amp;', '&lt;', '&#92;', 'a fairly long run of ordinary words to reach the line limit ',
+          '\\u002a/', '\\\\u002a/', '\\u002A\\u002F', '\\uuu002a/', 'C:\\users', '\\u', '\\u00', '/\\u002a', '\\\\\\u002a/', 'u002a/', '\\u000a', 'ends in \\']
+# pieces that end a LINE (the line-splicing defect needs the backslash at the end of a physical line)
+LINE_ENDS = ['\\', '\\ ', '\\\t', ' \\', 'C:\\', '\\\\', 'x']
 
 
 def adversarial(r, n=None):
@@ -46,6 +49,40 @@ def strip_c(text):
     return ''.join(out)
 
 
+
+def java_translate(text):
+    """JLS 3.3 unicode-escape translation (mirror of Lang/Lexical.v jrun); returns None for an ill-formed escape"""
+    out, i, n = [], 0, len(text)
+    while i < n:
+        c = text[i]
+        if c != '\\':
+            out.append(c); i += 1; continue
+        # c is an eligible backslash (every non-eligible one is consumed together with its predecessor below)
+        if i + 1 < n and text[i + 1] == 'u':
+            j = i + 1
+            while j < n and text[j] == 'u':
+                j += 1
+            hx = text[j:j + 4]
+            if len(hx) < 4 or any(h not in '0123456789abcdefABCDEF' for h in hx):
+                return None
+            v = int(hx, 16)
+            out.append(chr(v) if v < 256 else '?'); i = j + 4
+        elif i + 1 < n:
+            out.append(c); out.append(text[i + 1]); i += 2
+        else:
+            out.append(c); i += 1
+    return ''.join(out)
+
+
+def c_splice(text):
+    """translation phase 2 (with the GCC/clang extension: blanks between the backslash and the newline)"""
+    return re.sub(r'\\[ \t]*\n', '', text)
+
+
+def dangling(line):
+    return line.rstrip(' \t').endswith('\\')
+
+
 LIT = re.compile(r'(\[\[deprecated|DEPRECATED_MSG_ATTRIBUTE|System::Obsolete)\("((?:[^"\\\n]|\\.)*)"\)')
 
 
@@ -62,6 +99,12 @@ def canon(path, text, blank_messages):
             return json.dumps([drop(d) for d in yaml.safe_load_all(text)], sort_keys=True)
         except Exception as e:  # noqa
             return 'YAML-ERROR:' + str(e)[:80]
+    if path.endswith('.java'):
+        text = java_translate(text)
+        if text is None:
+            return 'JAVA-ILLEGAL-UNICODE-ESCAPE'
+    else:
+        text = c_splice(text)
     if blank_messages:
         # with or without a message, whatever the message: one deprecation annotation
         text = LIT.sub('@DEPR@', text)
@@ -105,7 +148,7 @@ def c_literals(arg):
     return out or None
 
 PRE = '''From Coq Require Import List String Ascii Bool Arith.
-From PDV Require Import Lib.StrUtil Lang.Comment.
+From PDV Require Import Lib.StrUtil Lang.Comment Lang.CommentProofs Lang.Lexical.
 Import ListNotations. Open Scope string_scope. Open Scope list_scope.
 Fixpoint bad_idx (i : nat) (cs : list (string * string)) : list nat :=
   match cs with [] => [] | c :: t => if String.eqb (fst c) (snd c) then bad_idx (S i) t else i :: bad_idx (S i) t end.
@@ -136,20 +179,26 @@ def run(ctx):
         text = adversarial(r, r.choice([None, None, None, 25, 40]))
         if r.random() < 0.4:
             text = '\n'.join(adversarial(r, r.randint(1, 3)) for _ in range(r.randint(2, 4)))
-        if i % 2 == 0:
-            g = r.choice(['cpp', 'java', 'jni', 'objc', 'objcpp', 'cppcli'])
+        if r.random() < 0.35:
+            # physical lines that end in a backslash (line splicing) - only the end of a line matters
+            text = '\n'.join(ln + r.choice(LINE_ENDS) for ln in text.split('\n'))
+        if i % 3 == 0:
+            g = r.choice(['cpp', 'java', 'jni', 'objc', 'objc', 'objcpp', 'cppcli'])
             cases.append({'k': 'filter', 'gen': g, 'text': text})
+        elif i % 3 == 1:
+            # the whole Java path: Markdown -> JavaDocCommentRenderer -> <decl>.java.comment -> comment filter
+            cases.append({'k': 'javadoc', 'gen': 'java', 'text': text, 'field': r.random() < 0.5})
         else:
             cases.append({'k': 'deprecated', 'gen': r.choice(['cpp', 'objc', 'cppcli']), 'text': text})
     ok, res = run_impl('comment_ops', {'cases': cases})
     if not ok:
         ctx.broken.append({'kind': 'harness', 'name': 'comment_ops driver', 'detail': str(res)[-1500:]}); return
     pairs, keep = [], []
-    dist = {'filter': 0, 'deprecated': 0, 'with_terminator': 0, 'with_backslash': 0, 'with_quote': 0, 'multi_line': 0}
+    dist = {'filter': 0, 'javadoc': 0, 'deprecated': 0, 'line_ends_in_backslash': 0, 'with_terminator': 0, 'with_backslash': 0, 'with_quote': 0, 'multi_line': 0}
     for c, o in zip(cases, res['results']):
         dist[c['k']] += 1
         dist['with_terminator'] += '*/' in c['text']; dist['with_backslash'] += '\\' in c['text']
-        dist['with_quote'] += '"' in c['text']; dist['multi_line'] += '\n' in c['text']
+        dist['with_quote'] += '"' in c['text']; dist['multi_line'] += '\n' in c['text']; dist['line_ends_in_backslash'] += any(dangling(l) for l in c['text'].split('\n'))
         if 'err' in o:
             ctx.add_violation({'kind': 'internal-error', 'where': c['k'], 'exc': o['err']}, '%s(%r) raised %s' % (c['k'], c['text'], o['err']), {'case': c})
             continue
@@ -163,8 +212,29 @@ def run(ctx):
                     ctx.add_violation({'kind': 'comment-terminated-early', 'generator': c['gen']},
                                       'generated comment contains the terminator %d times: %r' % (v.count(term), v[:200]), {'case': c, 'output': v})
             else:
+                # line-comment generators: the model is the filter WITH the splice repair (Lang/Lexical.v line_doc)
+                pairs[-1] = '(line_doc %s %s, %s)' % (cstr(o['prefix']), cstr(c['text']), cstr(v))
                 if any(not ln.startswith(o['prefix'].rstrip()) for ln in v.split('\n')):
                     ctx.add_violation({'kind': 'line-comment-escaped', 'generator': c['gen']}, 'a line of the generated comment lacks the prefix: %r' % v[:200], {'case': c, 'output': v})
+                bad = [ln for ln in v.split('\n') if dangling(ln)]
+                if bad:
+                    ctx.add_violation({'kind': 'line-comment-splices-next-line', 'generator': c['gen']},
+                                      "a line of the generated '//' comment ends in a backslash: the preprocessor splices the following line "
+                                      '(the next declaration) into the comment: %r' % bad[0][:120], {'case': c, 'output': v})
+        elif c['k'] == 'javadoc':
+            dist['javadoc'] = dist.get('javadoc', 0) + 1
+            dist['with_backslash_u'] = dist.get('with_backslash_u', 0) + ('\\u' in o['raw'])
+            pairs.append('(java_doc %s, %s)' % (cstr(o['raw']), cstr(v)))
+            keep.append({'case': c, 'impl': v, 'rendered': o['raw']})
+            t = java_translate(v)
+            if t is None:
+                ctx.add_violation({'kind': 'java-illegal-unicode-escape', 'generator': 'java'},
+                                  "the Javadoc comment contains a backslash-u that is not a unicode escape: javac rejects the file: %r" % v[:200],
+                                  {'case': c, 'output': v})
+            elif t.count('*/') != 1 or not t.endswith('*/'):
+                ctx.add_violation({'kind': 'comment-terminated-early', 'generator': 'java', 'via': 'unicode-escape'},
+                                  'after unicode-escape translation (JLS 3.3) the Javadoc comment is closed early: %r' % t[:200],
+                                  {'case': c, 'output': v, 'as_javac_reads_it': t})
         else:
             m = re.search(r'\((.*)\)', v, re.S)
             lits = c_literals(m.group(1)) if m else None
